@@ -490,13 +490,34 @@ impl WalletSim {
     pub fn model_scanned(&mut self, a: u32, b: u32, ctx: &mut RunCtx) {
         let (notes, spent) = self.chain.ledger();
         if b > a && a > 0 {
-            self.frontier_starts.insert(a - 1);
+            // the batch's starting frontier is checkpointed at a - 1; it is retained (on the grid) unless it is pruned
+            // on insertion, which happens when 100 newer checkpoints exist already (then it is just another instance of
+            // what F4 describes: a checkpoint below the tree's 100 newest cannot be established)
+            // (counted in the wallet itself: checkpoints at or above the end of this batch existed before it; this
+            // only decides which explanation a missing checkpoint gets, never whether it is reported)
+            let newer: i64 = ["sapling", "orchard", "ironwood"]
+                .iter()
+                .map(|t| self.conn.query_row(&format!("SELECT COUNT(*) FROM {t}_tree_checkpoints WHERE checkpoint_id >= ?1"), [b], |r| r.get::<_, i64>(0)).unwrap_or(0))
+                .max()
+                .unwrap_or(0);
+            if newer < 100 {
+                self.frontier_starts.insert(a - 1);
+            } else {
+                ctx.probe("batch_start_frontier_beyond_pruning_budget");
+            }
         }
         if let Some(act) = self.cfg.nu6_3 {
             let step = self.cfg.retention.unwrap_or(144);
             for h in (a..b).filter(|h| *h >= act && *h % step == 0) {
+                // the generator's count of checkpoint-bearing blocks above h, or (where the wallet also holds frontier and
+                // ensured checkpoints the generator does not count) the wallet's own count of checkpoints above h
                 let above = (h + 1..=self.chain.tip()).filter(|x| (self.scanned.contains(x) || (a..b).contains(x)) && self.chain.block(*x).map(|blk| blk.cms.iter().any(|c| !c.is_empty())).unwrap_or(false)).count();
-                if above >= 100 {
+                let in_wallet: i64 = ["sapling", "orchard", "ironwood"]
+                    .iter()
+                    .map(|t| self.conn.query_row(&format!("SELECT COUNT(*) FROM {t}_tree_checkpoints WHERE checkpoint_id > ?1"), [h], |r| r.get::<_, i64>(0)).unwrap_or(0))
+                    .max()
+                    .unwrap_or(0);
+                if above >= 100 || in_wallet >= 100 {
                     self.late_boundaries.insert(h);
                     ctx.probe("retention_boundary_scanned_beyond_pruning_budget");
                 } else {
